@@ -2123,6 +2123,17 @@ fn c17_attributes(tc: &TransCtx, a: &Accepted, post: &Book, sink: &mut Sink) {
                         sink.v("C17", format!("C17/{kind}/ask_fee-attribute"), format!("{:?} vs paid {x}", attr(a, "ask_fee")));
                     }
                 }
+                // one account for both fees: what reached it is the sum of the two reported fees
+                if let (Some(acct), true) = (askacct, askacct == bidacct) {
+                    if !parties.contains(&acct) && acct != CONTRACT {
+                        sink.c("C17/execute/shared-fee-account");
+                        if let (Some(x), Some(y)) = (num_attr("ask_fee"), num_attr("bid_fee")) {
+                            if x + y != to(acct) {
+                                sink.v("C17", format!("C17/{kind}/reported-fees-differ-from-what-the-fee-account-received"), format!("ask_fee {x} + bid_fee {y} reported, {} paid to {acct}", to(acct)));
+                            }
+                        }
+                    }
+                }
                 let bid_paid: Option<Vec<u128>> = match bidacct {
                     None => Some(vec![0]),
                     Some(acct) if !parties.contains(&acct) && Some(acct) != askacct => Some(vec![to(acct)]),
